@@ -308,6 +308,24 @@ def ubuf(n: size, x: f32[n, 2], y: f32[n]):
         u[i] = 1.0
 """)
 
+S("alloc/unroll_buf_win", "alloc", """
+@proc
+def ubw_fill(d: [f32][4], s: [f32][4]):
+    for j in seq(0, 4):
+        d[j] = s[j] + 1.0
+
+@proc
+def ubufw(x: f32[4], y: f32[4]):
+    t: f32[2, 4]
+    ubw_fill(t[0, :], x)
+    w = t[1, 0:4]
+    for j in seq(0, 4):
+        w[j] = x[j] * 2.0
+    ubw_fill(y[0:4], t[1, :])
+    for j in seq(0, 4):
+        y[j] += t[0, j]
+""", callees=("ubw_fill",))
+
 # ------------------------------------------------------------------- win
 S("win/basic", "win", """
 @proc
